@@ -235,4 +235,47 @@ theorem radixLoop_refines (radix : Nat) (cs : Str) : ∀ acc : Nat,
       · rfl
       · rw [← Int64.ofNat_mul, ← Int64.ofNat_add, ih]
 
+
+theorem radixDigit_hex (c : Char) (h : isHexDigit c = true) : ∃ dv, radixDigit 16 c = some dv ∧ dv < 16 := by
+  have e : c.val.toNat = c.toNat := rfl
+  simp only [isHexDigit, isDigit, Bool.or_eq_true, Bool.and_eq_true, decide_eq_true_eq, Char.le_def,
+    UInt32.le_iff_toNat_le, e] at h
+  simp only [radixDigit, isDigit, Bool.and_eq_true, decide_eq_true_eq, Char.le_def, UInt32.le_iff_toNat_le, e]
+  have k0 : ('0' : Char).toNat = 48 := rfl
+  have k9 : ('9' : Char).toNat = 57 := rfl
+  have ka : ('a' : Char).toNat = 97 := rfl
+  have kf : ('f' : Char).toNat = 102 := rfl
+  have kz : ('z' : Char).toNat = 122 := rfl
+  have kA : ('A' : Char).toNat = 65 := rfl
+  have kF : ('F' : Char).toNat = 70 := rfl
+  have kZ : ('Z' : Char).toNat = 90 := rfl
+  have e0 : ('0' : Char).val.toNat = 48 := rfl
+  have e9 : ('9' : Char).val.toNat = 57 := rfl
+  have ea : ('a' : Char).val.toNat = 97 := rfl
+  have ef : ('f' : Char).val.toNat = 102 := rfl
+  have ez : ('z' : Char).val.toNat = 122 := rfl
+  have eA : ('A' : Char).val.toNat = 65 := rfl
+  have eF : ('F' : Char).val.toNat = 70 := rfl
+  have eZ : ('Z' : Char).val.toNat = 90 := rfl
+  simp only [e0, e9, ea, ef, ez, eA, eF, eZ] at h ⊢
+  by_cases h1 : 48 ≤ c.toNat ∧ c.toNat ≤ 57
+  · exact ⟨c.toNat - 48, by simp [h1], by omega⟩
+  · by_cases h2 : 97 ≤ c.toNat ∧ c.toNat ≤ 122
+    · exact ⟨c.toNat - 97 + 10, by simp [h1, h2], by omega⟩
+    · by_cases h3 : 65 ≤ c.toNat ∧ c.toNat ≤ 90
+      · exact ⟨c.toNat - 65 + 10, by simp [h1, h2, h3], by omega⟩
+      · omega
+
+/-- a string of hexadecimal digits always has a base-16 value -/
+theorem radixNat_hex_some (ds : Str) (h : ∀ c ∈ ds, isHexDigit c = true) :
+    ∀ acc, ∃ v, radixNat (radixDigit 16) 16 ds acc = some v := by
+  induction ds with
+  | nil => intro acc; exact ⟨acc, rfl⟩
+  | cons c cs ih =>
+    intro acc
+    obtain ⟨dv, hdv, hlt⟩ := radixDigit_hex c (h c (by simp))
+    have hge : ¬ dv ≥ 16 := by omega
+    simp only [radixNat, hdv, hge, if_false]
+    exact ih (fun x hx => h x (by simp [hx])) _
+
 end BrushVerif.Arith
